@@ -702,6 +702,7 @@ var (
 	reLock      = regexp.MustCompile(`^(\s*)([\w\.]+)\.Lock\(\)\s*$`)
 	reUnlock    = regexp.MustCompile(`^(\s*)([\w\.]+)\.Unlock\(\)\s*$`)
 	reAtomic    = regexp.MustCompile(`atomic\.(Load|Store|CompareAndSwap|Swap|Add)\w*\(|\.value\.(Load|Store|CompareAndSwap)\(`)
+	reAtomicM   = regexp.MustCompile(`\.(Load|Store|CompareAndSwap|Swap|Add)\(`)
 	reOnce      = regexp.MustCompile(`\b(\w+)\.Do\(`)
 	reIndent    = regexp.MustCompile(`^(\s*)(.*)$`)
 	rePackage   = regexp.MustCompile(`(?m)^package \w+\s*$`)
@@ -731,6 +732,8 @@ func instrumentForReplay() []srcFile {
 			lines := strings.Split(src, "\n")
 			changed := false
 			usesOnce := strings.Contains(src, "sync.Once")
+			// files that import sync/atomic themselves may use the typed atomics (atomic.Bool, atomic.Value, ...)
+			usesAtomicPkg := strings.Contains(src, "\"sync/atomic\"")
 			for i, l := range lines {
 				switch {
 				case strings.HasPrefix(strings.TrimSpace(l), "//"):
@@ -750,7 +753,7 @@ func instrumentForReplay() []srcFile {
 					m := reUnlock.FindStringSubmatch(l)
 					lines[i] = m[1] + "zzverif.MutexUnlock(&" + m[2] + ")"
 					changed = true
-				case reAtomic.MatchString(l) && !strings.Contains(l, "import") && !strings.Contains(l, "\"sync/atomic\""):
+				case (reAtomic.MatchString(l) || (usesAtomicPkg && reAtomicM.MatchString(l))) && !strings.Contains(l, "import") && !strings.Contains(l, "\"sync/atomic\""):
 					m := reIndent.FindStringSubmatch(l)
 					if strings.HasPrefix(m[2], "if ") || strings.HasPrefix(m[2], "for ") || strings.HasPrefix(m[2], "}") {
 						lines[i] = m[1] + "zzverif.SchedPoint(\"atomic\")\n" + l
